@@ -158,7 +158,31 @@ func (*c04) Corpus() []any {
 	return out
 }
 
-func (*c04) Exhaustive(string) []any { return nil }
+// Exhaustive: every string over a 9-symbol alphabet up to a length (2 quick, 4 thorough)
+// through the --set parsers on a destination that has a table, a list and a scalar.
+func (*c04) Exhaustive(tier string) []any {
+	alpha := []string{"a", ".", "=", ",", "[", "]", "0", "{", "}"}
+	maxLen, fns := 2, []string{"ParseInto"}
+	if tier == "thorough" {
+		maxLen, fns = 4, []string{"ParseInto", "ParseLiteralInto", "ParseJSON"}
+	}
+	dest := vtree{"a": vtree{"a": int64(1)}, "0": []interface{}{"x"}}
+	var out []any
+	var rec func(prefix string, n int)
+	rec = func(prefix string, n int) {
+		for _, fn := range fns {
+			out = append(out, c04Case{Kind: "parse", Tag: "exhaustive-parse", Parse: &c04Parse{Fn: fn, S: prefix, Dest: dest}})
+		}
+		if n == 0 {
+			return
+		}
+		for _, c := range alpha {
+			rec(prefix+c, n-1)
+		}
+	}
+	rec("", maxLen)
+	return out
+}
 
 func c04GenChart(r *rand.Rand, name string, levels int, base vtree) *c04Chart {
 	c := &c04Chart{Name: name}
